@@ -501,6 +501,44 @@ R.contract(
     replayable=False,
 )
 
+
+# ------------------------------------------------------------------------------------------------- pytest: one test per offered operation (selected ones only: get_all_operations), invalid ones reported
+def _offered(it, obj, a, k):
+    from pyvc.values import VGen, VObj
+
+    n = it.path.choose([(i, True) for i in (0, 1, 2, 3)], "n-operations")
+    it.path.bounded_inputs.add("up to 3 offered operations")
+    out = []
+    for i in range(n):
+        if it.path.choose([(True, True), (False, True)], f"op{i}-valid"):
+            out.append(it.instantiate(it.resolve_class("schemathesis.core.result:Ok"), [VObj(it.resolve_class("spec:OfferedOp"), {"label": f"op{i}"})], {}))
+        else:
+            out.append(it.instantiate(it.resolve_class("schemathesis.core.result:Err"), [fresh_opaque(it, "InvalidSchemaRef")], {}))
+    it.ghost["offered"] = out
+    it.ghost["offered_with"] = dict(k)
+    return VGen(out)
+
+
+R.nominal_methods["spec:SchemaOfferingOps"] = {"get_all_operations": _offered}
+R.contract("schemathesis.generation.hypothesis.builder:create_test", args={"operation": Opq("Any"), "test_func": Opq("Any"), "config": Opq("Any")}, trusted=True,
+           returns=lambda it, env: ("test-for", env["operation"], env["test_func"], env["config"]), note="C13 / C12 contracts (seed, settings, phases)")
+R.contract(
+    LZ + "get_all_tests",
+    prop="C07",
+    args={"schema": Obj("spec:SchemaOfferingOps"), "test_func": Opq("UserTest"), "generation_config": Opq("GenerationConfigRef"), "modes": Opq("Modes"), "settings": OneOf(NoneT, Opq("Settings")), "seed": Opt(Int),
+          "as_strategy_kwargs": NoneT, "given_kwargs": NoneT},
+    ghost={"offered": None, "offered_with": None},
+    raises=[],
+    ensures={
+        # "every selected operation is offered for testing": exactly one test per operation the schema offers (its filters applied there), in order; schema errors are passed on, not dropped
+        "one_result_per_offered_operation_in_order": "length(result) == length(ghost('offered'))",
+        "a_test_of_the_users_function_for_each_valid_operation": "all((is_instance(r, 'Ok') and r.ok()[0] is o.ok() and r.ok()[1][0] == 'test-for' and r.ok()[1][1] is o.ok() and r.ok()[1][2] is test_func and "
+            "same_ref(r.ok()[1][3].seed, seed) and same_ref(r.ok()[1][3].settings, settings) and same_ref(r.ok()[1][3].modes, modes) and same_ref(r.ok()[1][3].generation, generation_config)) if is_instance(o, 'Ok') else r is o "
+            "for r, o in zip(result, ghost('offered')))",
+    },
+    replayable=False,
+)
+
 LEVEL_TEXT = ("Deductive: the selection rule of the property is the machine-checked postcondition of the real FilterSet.match (loop invariant, sets of any size); "
               "matchers, attribute access, _should_skip (with an arbitrary stale shared cache), the GraphQL variant and the link rule carry their own contracts, "
               "all discharged by z3 from the current source on every run. Whole-document iteration is cross-checked by a bounded stand-in only.")
